@@ -459,6 +459,7 @@ def render(model, opt):
         "nspines": n,
         "has_split": any(sp["sub"] is not None for sp in spines),
         "split_inside_bar": any(sp["sub"] is not None and sp["sub"]["first_t"] != model.bars[sp["sub"]["first"]][0] for sp in spines),
+        "nsubs": sum(1 for sp in spines if sp["sub"] is not None),
         "dropped_ties": len(dropped_ties),
         "kept_ties": len(tie_ok),
         "ties_over_grace": len(over_grace),
